@@ -37,6 +37,7 @@ var reservedL2 = map[string]bool{"example.com": true, "example.net": true, "exam
 //	reserved   host is a reserved name
 //	unparsable net/url refuses it (no verdict is derived from the statement)
 func urlClass(raw string) string {
+	raw = strings.TrimSpace(raw) // a URL is what is left when the white space around it is taken away, whoever does the trimming
 	if raw == "" {
 		return "not-https"
 	}
@@ -66,6 +67,7 @@ func urlClass(raw string) string {
 
 // urlSubclass refines the class for violation signatures (different sub-classes are different defects).
 func urlSubclass(raw string) string {
+	raw = strings.TrimSpace(raw)
 	if raw == "" {
 		return "empty"
 	}
